@@ -181,7 +181,21 @@ static Verdict run_c12(const Case &c)
   {
     file = ref::encrypt_file(e.P, fparams(e));
     if (fk == "edited")
+    {
       file = apply_edits(file, c.get("edits"));
+      if (c.geti("retag") && file.size() >= 48)
+      {
+        // the holder of the key re-tags the altered file: it is authentic again although no encryption wrote it
+        // (a body cut inside the IV table, not a whole number of blocks, with blocks dropped or added ...).
+        // "For every file and key": verify and decrypt must still agree on it.
+        int hm = file[9] <= 2 ? file[9] : e.hmode;
+        bytes t = ref::hmac(hm, e.key, file.data() + 48, file.size() - 48);
+        for (size_t i = 0; i < t.size() && 10 + i < 48; i++)
+          file[10 + i] = t[i];
+        for (size_t i = 10 + t.size(); i < 48; i++)
+          file[i] = 0;
+      }
+    }
   }
   bytes key = c.get("keykind", "right") == "right" ? e.key : c.getb("wrongkey");
   key.resize(16);
@@ -204,6 +218,8 @@ static Verdict run_c12(const Case &c)
   pc.hint_h = (int)c.geti("hint_h", -1);
   if (pc.hint_c >= 0 || pc.hint_h >= 0)
     v.classes.push_back("settings_name_a_mode");
+  if (c.geti("retag"))
+    v.classes.push_back("altered_then_retagged_with_the_right_key");
   if (pc.in_noseek)
     v.classes.push_back("input_is_a_pipe");
   if (pc.fsize_hint == 0)
@@ -326,6 +342,25 @@ static Case gen_c12()
       break;
     default:
       s = "S:" + std::to_string(g::range(0, (long)flen)) + ":" + hex(g::raw((size_t)g::range(1, 8)));
+    }
+    // structural edits of the part the tag covers, then a fresh tag (right key): authentic but not written by wencry
+    if (g::coin(30))
+    {
+      long kind = g::range(0, 6);
+      long ivend = 48 + 20 * T;
+      if (kind == 0)
+        s = "T:" + std::to_string(g::range(48, ivend + 1)); // cut inside the IV table (48 = nothing left to hash)
+      else if (kind == 1)
+        s = "T:" + std::to_string(g::range(ivend, (long)flen)); // cut inside the body, any alignment
+      else if (kind == 2)
+        s = "A:" + hex(g::raw((size_t)g::range(1, 40))); // bytes appended, any alignment
+      else if (kind == 3)
+        s = "D:" + std::to_string(g::range(ivend, (long)flen - 15)) + ":16"; // a block dropped
+      else if (kind == 4)
+        s = "X:" + std::to_string(g::range(48, (long)flen)) + ":" + std::to_string(1 << g::range(0, 8)); // a bit in the IVs / body
+      else
+        s = "T:" + std::to_string(ivend + (long)c.geti("chunk") * g::range(0, 3)); // body an exact chunk multiple / empty
+      c.seti("retag", 1);
     }
     c.set("edits", s);
   }
